@@ -121,7 +121,7 @@ def _inductive(chk):
     for cfg in ("MC_AddChainInd_9.cfg", "MC_AddChainInd_12.cfg"):
         chk.add_mc(core.model_check("edwards/MC_AddChainInd.tla", cfg, workers=4, timeout=900))
     ind["runs"].append(core.ind_expect(core.tlapm("edwards/AddChainProofs.tla", timeout=900), "ok", "AddChainProofs"))
-    ind["runs"].append(core.ind_expect(core.tlapm("edwards/AddChainProofsBad.tla", timeout=900), "failed", "AddChainProofsBad"))
+    ind["runs"].append(core.ind_expect(core.tlapm("edwards/AddChainProofsBad.tla", timeout=900, retries=0), "failed", "AddChainProofsBad"))
     A = "edwards/AddChainIndApa.tla"
     for kw, want in ((dict(cinit="CInitAny", init="Init", inv="IndInv", length=0), "ok"),            # base, W in 4..64
                      (dict(cinit="CInitAny", init="IndInit", inv="IndInv", length=1), "ok"),         # step, W in 4..64
